@@ -22,11 +22,12 @@ inductive Clause
   | stateRoundtrip    -- serialised state/config after the restart differs from before
   | crashOldOrNew     -- after a kill the file is neither the complete old nor the complete new version
   | writeLost         -- a write that ran to completion is not what the loader finds
+  | modattrLoad       -- modified-attributes.conf does not load at start-up (every runtime modification is lost)
   deriving Repr, DecidableEq
 
 def Clause.name : Clause → String
   | .restoreIdentity => "restoreIdentity" | .stateRoundtrip => "stateRoundtrip"
-  | .crashOldOrNew => "crashOldOrNew" | .writeLost => "writeLost"
+  | .crashOldOrNew => "crashOldOrNew" | .writeLost => "writeLost" | .modattrLoad => "modattrLoad"
 
 /-! ## (1) modify / restore -/
 
@@ -144,6 +145,9 @@ def specRestartConfig {N : Type} [DecidableEq N] (before after : JValue N) : Opt
       else some .stateRoundtrip
     | _, _ => some .stateRoundtrip
   | _, _ => if before = after then none else some .stateRoundtrip
+
+/-- The file the shutdown wrote must load at the next start. -/
+def specModattrLoad (loaded : Bool) : Option Clause := if loaded then none else some .modattrLoad
 
 /-! ## (3) kill during a write -/
 
